@@ -21,10 +21,12 @@ const (
 	kSampler             // zapcore.NewSampler(child, ...) with a budget that is never exhausted
 	kLazy                // zapcore.NewLazyWith(child, fields)
 	kWith                // child.With(fields)
+	kDrop                // zapcore.NewSamplerWithOptions(child, 1h, 0, 0): drops every entry of a named level
+	kOnce                // zapcore.NewSamplerWithOptions(child, 1h, 1, 0): first entry per (level, message) passes, later ones are dropped (part "once" only)
 )
 
-var kindName = [...]string{"obs", "io", "tee", "incr", "hooks", "sampler", "lazy", "with"}
-var kindLong = [...]string{"observer-core", "io-core", "tee", "increase-level", "hooks", "sampler", "lazy-with", "with"}
+var kindName = [...]string{"obs", "io", "tee", "incr", "hooks", "sampler", "lazy", "with", "drop", "once"}
+var kindLong = [...]string{"observer-core", "io-core", "tee", "increase-level", "hooks", "sampler", "lazy-with", "with", "dropping-sampler", "first-only-sampler"}
 
 // level enablers
 const (
@@ -211,7 +213,7 @@ func genTrees(maxN int) [][]*node {
 	for n := 2; n <= maxN; n++ {
 		var out []*node
 		for _, c := range by[n-1] {
-			out = append(out, mk(kHooks, 0, c), mk(kSampler, 0, c), mk(kLazy, 0, c), mk(kWith, 0, c))
+			out = append(out, mk(kHooks, 0, c), mk(kSampler, 0, c), mk(kLazy, 0, c), mk(kWith, 0, c), mk(kDrop, 0, c))
 			for e := 0; e < nEnab; e++ {
 				out = append(out, mk(kIncr, e, c))
 			}
@@ -244,7 +246,40 @@ func genTrees(maxN int) [][]*node {
 // ---------------------------------------------------------------------------
 // reference evaluator (works on the runtime mirror of a tree, see build.go)
 
-// accept: would some leaf under r record an entry of level l (atomic level cur)?
+// sampled: the levels a sampler counts (out-of-range levels pass through unsampled).
+func sampled(l int8) bool { return l >= lDebug && l <= lFatal }
+
+// drops: does this node decline every sampled entry in Check right now?
+func (r *rnode) drops() bool { return r.k == kDrop || (r.k == kOnce && r.spent) }
+
+// delivers: would some leaf under r record an entry of level l now? Differs
+// from accept only below a dropping sampler.
+func delivers(r *rnode, l, cur int8) bool {
+	switch r.k {
+	case kObs, kIO:
+		return enabModel(r.e, l, cur)
+	case kTee:
+		for _, c := range r.kids {
+			if delivers(c, l, cur) {
+				return true
+			}
+		}
+		return false
+	case kIncr:
+		return enabModel(r.e, l, cur) && delivers(r.kids[0], l, cur)
+	default:
+		if r.drops() && sampled(l) {
+			return false
+		}
+		return delivers(r.kids[0], l, cur)
+	}
+}
+
+// accept: the level pre-check - is level l enabled on every filter of some
+// path to a leaf (atomic level cur)? This is what Enabled(l), LevelOf, Level
+// and V are documented to report: a sampler reports its wrapped core's levels
+// (Enabled cannot know about sampling decisions), so samplers are transparent
+// here. Without a dropping sampler accept == delivers.
 func accept(r *rnode, l, cur int8) bool {
 	switch r.k {
 	case kObs, kIO:
@@ -296,11 +331,15 @@ func expect(r *rnode, l, cur int8, leaf []int, hook []int) bool {
 		}
 		return ok
 	default:
+		if r.drops() && sampled(l) {
+			// the sampler declines in Check: nothing below it sees the entry
+			return false
+		}
 		return expect(r.kids[0], l, cur, leaf, hook)
 	}
 }
 
-// minLevel: the minimum named level that is delivered somewhere, InvalidLevel if none.
+// minLevel: the minimum named level that is enabled (see accept), InvalidLevel if none.
 func minLevel(r *rnode, cur int8) int8 {
 	for l := lDebug; l <= lFatal; l++ {
 		if accept(r, l, cur) {
@@ -330,7 +369,7 @@ func hookContext(r *rnode, idx int, l, cur int8, accBefore, gated bool) (bool, s
 		if r.hook == idx {
 			switch {
 			case gated:
-				return true, "behind-rejecting-increase-level-filter"
+				return true, "behind-rejecting-filter-or-dropping-sampler"
 			case accBefore:
 				return true, "after-accepting-tee-branch"
 			}
@@ -343,14 +382,26 @@ func hookContext(r *rnode, idx int, l, cur int8, accBefore, gated bool) (bool, s
 			if ok, s := hookContext(c, idx, l, cur, acc, gated); ok {
 				return true, s
 			}
-			acc = acc || accept(c, l, cur)
+			acc = acc || delivers(c, l, cur)
 		}
 		return false, ""
 	case kIncr:
 		return hookContext(r.kids[0], idx, l, cur, accBefore, gated || !enabModel(r.e, l, cur))
 	default:
-		return hookContext(r.kids[0], idx, l, cur, accBefore, gated)
+		return hookContext(r.kids[0], idx, l, cur, accBefore, gated || (r.drops() && sampled(l)))
 	}
+}
+
+func findHook(r *rnode, idx int) *rnode {
+	if r.k == kHooks && r.hook == idx {
+		return r
+	}
+	for _, c := range r.kids {
+		if h := findHook(c, idx); h != nil {
+			return h
+		}
+	}
+	return nil
 }
 
 func lvlName(l int8) string { return zapcore.Level(l).String() }
